@@ -118,7 +118,8 @@ def rule_b(ctx: Context, R: Reporter, disp: FuncInfo):
                         continue  # a freshly constructed Pool object
                     bt = norm_text(ds[0].value)
                 n += 1
-                facts = path_facts(disp.node, nd)
+                rs_ = ExprResolver(disp.node)
+                facts = [(rs_.resolve(t, nd), pol) for (t, pol) in path_facts(disp.node, nd)]
                 atoms, forced = forced_atoms(facts)
                 ok = False
                 why = "no isinstance(int) fact on this path"
@@ -348,6 +349,15 @@ def _rows_of_name(ctx: Context, fi: FuncInfo, name: ast.Name, nd) -> Optional[st
                 out.add(_rows_of_name(ctx, ent.fi, ent.value, ent.node))
                 continue
         fi = fi2
+        if isinstance(v, ast.Call) and (ctx.res.external_name(fi2, v) or "") in ("numpy.random.rand", "numpy.random.random", "numpy.random.uniform", "numpy.zeros", "numpy.empty", "numpy.ones") and v.args:
+            a0 = v.args[0]
+            if isinstance(a0, ast.Tuple) and a0.elts:
+                a0 = a0.elts[0]
+            size_kw = next((k.value for k in v.keywords if k.arg == "size"), None)
+            if (ctx.res.external_name(fi2, v) or "") == "numpy.random.uniform" and size_kw is not None:
+                a0 = size_kw.elts[0] if isinstance(size_kw, ast.Tuple) else size_kw
+            out.add(norm_text(a0))
+            continue
         if isinstance(v, ast.Call) and (ctx.res.external_name(fi, v) or "") in ("numpy.empty_like", "numpy.zeros_like") and v.args:
             a = v.args[0]
             # rows of self.u = n_walkers when (n_walkers, n_dim) = x.shape and u, x are parallel arrays
